@@ -21,6 +21,7 @@ import (
 	"os/exec"
 	"path/filepath"
 	"regexp"
+	"runtime"
 	"sort"
 	"strconv"
 	"strings"
@@ -288,12 +289,13 @@ func (r *recorder) Report(events chan *test.ReportEvent, shutdown context.Cancel
 }
 
 type observation struct {
-	ran      []int // case indices in execution order (from the RUN markers the case bodies print)
-	statuses map[int]test.TestStatus
-	failure  bool // what cmd/elk turns into exit status 1
-	topErr   string
-	rootStat string
-	nreports int
+	ran       []int // case indices in execution order (from the RUN markers the case bodies print)
+	statuses  map[int]test.TestStatus
+	failure   bool // what cmd/elk turns into exit status 1
+	exitKnown bool
+	topErr    string
+	rootStat  string
+	nreports  int
 }
 
 var markerRe = regexp.MustCompile(`RUN (\d+)`)
@@ -359,7 +361,10 @@ func runInProcess(fn *vm.BytecodeFunction, fs []filter, seed uint64) (o observat
 	// detach the threads' cancel contexts from the global aborter (each vm.New registers a child context)
 	v.Aborter.CancelFunc()()
 	v2.Aborter.CancelFunc()()
-	o.failure = report == nil || report.Status() != test.TEST_SUCCESS
+	// the exit status is decided by cmd/elk from the root report: FAILED/ERROR ⇒ failure, SUCCESS ⇒ success; what
+	// it does with any other status is observed through the real CLI only
+	o.failure = report == nil || report.Status() == test.TEST_FAILED || report.Status() == test.TEST_ERROR
+	o.exitKnown = report == nil || o.failure || report.Status() == test.TEST_SUCCESS
 	if report != nil {
 		o.rootStat = statusName(report.Status())
 	} else {
@@ -422,7 +427,7 @@ func intsStr(xs []int) string {
 }
 
 // judge compares an observation with the reference; mode is "inproc" or "cli".
-func judge(r *engine.R, p *program, fs []filter, mode string, ran []int, failure bool, extra string) {
+func judge(r *engine.R, p *program, fs []filter, mode string, ran []int, failure, exitKnown bool, extra string) {
 	sel, ok := p.selected(fs)
 	if !ok {
 		r.Count("undecided_by_statement", 1)
@@ -460,14 +465,32 @@ func judge(r *engine.R, p *program, fs []filter, mode string, ran []int, failure
 			what, argsOf(fs), mode, intsStr(sel), intsStr(ranSet), ran, extra, fileName, numbered(p.src))
 	}
 	fsig := filterSig(p, fs)
+	if len(fs) == 2 && strings.Contains(fsig, "path:LINE-of-describe") && len(surplus) == 0 && len(dup) == 0 {
+		// one defect: the whole-suite match of path:LINE-of-describe is lost as soon as a second filter is given
+		fsig = "[path:LINE-of-describe + any second filter]"
+	}
+	// the engine keeps two violations per signature and case: do not format the others
+	viol := func(sig, what string) {
+		n := 0
+		for _, v := range r.Viol {
+			if v.Sig == sig {
+				n++
+			}
+		}
+		if n >= 2 {
+			r.Count("violations_total", 1)
+			return
+		}
+		r.Violation(sig, detail(what), input)
+	}
 	if len(missing) > 0 {
-		r.Violation("selected case not run: filters="+fsig, detail(fmt.Sprintf("case(s) %s satisfy every filter but were not run", intsStr(missing))), input)
+		viol("selected case not run: filters="+fsig, fmt.Sprintf("case(s) %s satisfy every filter but were not run", intsStr(missing)))
 	}
 	if len(surplus) > 0 {
-		r.Violation("unselected case run: filters="+fsig, detail(fmt.Sprintf("case(s) %s do not satisfy every filter but were run", intsStr(surplus))), input)
+		viol("unselected case run: filters="+fsig, fmt.Sprintf("case(s) %s do not satisfy every filter but were run", intsStr(surplus)))
 	}
 	if len(dup) > 0 {
-		r.Violation("case run more than once: filters="+fsig, detail(fmt.Sprintf("case(s) %s ran more than once", intsStr(dup))), input)
+		viol("case run more than once: filters="+fsig, fmt.Sprintf("case(s) %s ran more than once", intsStr(dup)))
 	}
 	// exit status: failure ⇔ some case that ran failed or errored
 	bad := false
@@ -477,16 +500,20 @@ func judge(r *engine.R, p *program, fs []filter, mode string, ran []int, failure
 		}
 	}
 	switch {
+	case !exitKnown:
+		r.Count("inproc_root_status_neither_success_nor_failure (exit status judged through the CLI only)", 1)
 	case failure && !bad && len(ranSet) == 0:
-		r.Violation("exit status failure although no case ran (zero cases selected)", detail("no case ran, so no case failed or errored, but the run is reported as a failure (exit status 1)"), input)
+		viol("exit status failure although no case ran (zero cases selected)", "no case ran, so no case failed or errored, but the run is reported as a failure (exit status 1)")
 	case failure && !bad:
-		r.Violation("exit status failure although every executed case passed", detail("every executed case passed but the run is reported as a failure"), input)
+		viol("exit status failure although every executed case passed", "every executed case passed but the run is reported as a failure")
 	case !failure && bad:
-		r.Violation("exit status success although an executed case failed or errored", detail("an executed case failed or errored but the run is reported as a success (exit status 0)"), input)
+		viol("exit status success although an executed case failed or errored", "an executed case failed or errored but the run is reported as a success (exit status 0)")
 	}
 	// outcome classes for the evidence
 	oc := fmt.Sprintf("%s sel=%d", mode, len(sel))
-	if failure {
+	if !exitKnown {
+		oc += " exit=?"
+	} else if failure {
 		oc += " exit=1"
 	} else {
 		oc += " exit=0"
@@ -605,7 +632,7 @@ func runCLI(c *engine.Ctx, shard string, p *program, fs []filter) (stdout string
 	defer cancel()
 	cmd := exec.CommandContext(ctx, cliBin, args...)
 	cmd.Dir = dir
-	cmd.Env = append(os.Environ(), "ELKPATH=/repo", "NO_COLOR=1")
+	cmd.Env = append(os.Environ(), "ELKPATH=/repo", "NO_COLOR=1", "GOMAXPROCS=2")
 	var ob bytes.Buffer
 	cmd.Stdout = &ob
 	cmd.Stderr = &ob
@@ -617,6 +644,16 @@ func runCLI(c *engine.Ctx, shard string, p *program, fs []filter) (stdout string
 }
 
 // ---------------------------------------------------------------------------------------------------------
+
+// sel0 is the first passing case (or case 0).
+func sel0(p *program) int {
+	for k := range p.cases {
+		if p.cases[k].outcome == 0 {
+			return k
+		}
+	}
+	return 0
+}
 
 func outcomesOf(n, code int) []int {
 	o := make([]int, n)
@@ -656,9 +693,10 @@ func compile(p *program) (*vm.BytecodeFunction, string) {
 }
 
 func run(c *engine.Ctx) {
-	maxCases := 3
+	// number of outcome assignments explored per tree of n cases (0 = all 3^n)
+	perShape := map[int]int{1: 0, 2: 0, 3: 3, 4: 1}
 	if c.Thorough {
-		maxCases = 4
+		perShape = map[int]int{1: 0, 2: 0, 3: 0, 4: 9}
 	}
 	shard := strconv.Itoa(os.Getpid())
 	only := os.Getenv("C34_ONLY") // development aid: "inproc" or "cli"
@@ -666,10 +704,19 @@ func run(c *engine.Ctx) {
 		for si, shape := range seqs(n, 0) {
 			shape := shape
 			codes := pow3(n)
+			if n == 4 && !c.Thorough && si%4 != 0 {
+				continue // quick: every fourth 4-case tree
+			}
 			for code := 0; code < codes; code++ {
-				// quick tier: all outcome assignments up to 3 cases; for 4 cases three rotating assignments per shape
-				if n > maxCases {
-					if !(code == (si*7)%codes || code == (si*7+31)%codes || code == 0) {
+				// a bounded number of assignments: all-pass first, then assignments rotating with the tree index
+				if k := perShape[n]; k > 0 {
+					keep := false
+					for j := 0; j < k; j++ {
+						if (j == 0 && k > 1 && code == 0) || (!(j == 0 && k > 1) && code == (si*7+j*31+1)%codes) {
+							keep = true
+						}
+					}
+					if !keep {
 						continue
 					}
 				}
@@ -696,7 +743,7 @@ func run(c *engine.Ctx) {
 							r.Violation("loading the test file raised an error", fmt.Sprintf("elk test %s: interpreting the file raised %s\n%s", argsOf(fs), o.topErr, numbered(p.src)), p.src)
 							continue
 						}
-						judge(r, p, fs, "inproc", o.ran, o.failure, fmt.Sprintf("; root suite status %s", o.rootStat))
+						judge(r, p, fs, "inproc", o.ran, o.failure, o.exitKnown, fmt.Sprintf("; root suite status %s", o.rootStat))
 						// a case that ran must be reported with the status class of its outcome
 						for k, st := range o.statuses {
 							want := []test.TestStatus{test.TEST_SUCCESS, test.TEST_FAILED, test.TEST_ERROR}[p.cases[k].outcome]
@@ -717,13 +764,26 @@ func run(c *engine.Ctx) {
 	if c.Thorough {
 		cliMax = 3
 	}
+	// each CLI invocation costs ~1 s of CPU (process start, std headers): full filter lists only for the small trees
+	cliKeep := func(n, si, code int) (keep, full bool) {
+		switch {
+		case n == 1:
+			return true, true
+		case n == 2 && c.Thorough:
+			return true, true
+		case n == 2:
+			return code == []int{0, 1, 6}[si%3], false // pp, fp, pe rotating over the trees
+		}
+		return code == (si*7+5)%27, false
+	}
 	for n := 1; n <= cliMax && only != "inproc"; n++ {
-		for _, shape := range seqs(n, 0) {
+		for si, shape := range seqs(n, 0) {
 			shape := shape
 			for code := 0; code < pow3(n); code++ {
 				outs := outcomesOf(n, code)
-				if n == 3 && !(code%13 == 0 || code == pow3(n)-1) {
-					continue // 3 cases: ppp, a mixed assignment per residue, eee
+				keep, full := cliKeep(n, si, code)
+				if !keep {
+					continue
 				}
 				c.Case(fmt.Sprintf("cli/%s/%s", shape, outcomeStr(outs)), func(r *engine.R) {
 					if cliErr != nil {
@@ -733,10 +793,13 @@ func run(c *engine.Ctx) {
 					all := allFilters(p)
 					sets := [][]filter{nil}
 					for _, f := range all {
-						sets = append(sets, []filter{f})
+						// reduced list: --grep A, the first line of every describe and of the first case
+						if full || f.grep == grepA || (f.line > 0 && (f.kind(p) == "path:LINE-of-describe" || f.line == p.cases[0].first)) {
+							sets = append(sets, []filter{f})
+						}
 					}
 					for _, f := range all {
-						if f.line > 0 {
+						if f.line > 0 && ((c.Thorough && full) || f.kind(p) == "path:LINE-of-describe") {
 							sets = append(sets, []filter{{grep: grepA}, f})
 						}
 					}
@@ -765,14 +828,9 @@ func run(c *engine.Ctx) {
 							nums[i], _ = strconv.Atoi(m[i])
 						}
 						sel, _ := p.selected(fs)
-						want := [3]int{}
-						for _, k := range sel {
-							want[p.cases[k].outcome]++
-						}
 						got := [3]int{nums[2], nums[4], nums[5]}
 						// executed set as far as the output identifies it: failed/errored cases are listed by name
 						var ran []int
-						identified := true
 						for k := range p.cases {
 							if p.cases[k].outcome == 0 {
 								continue
@@ -782,23 +840,27 @@ func run(c *engine.Ctx) {
 								ran = append(ran, k)
 							}
 						}
-						// passing cases: identified only by count; attribute them to the selected passing cases when the count agrees
-						if got[0] == want[0] {
-							for _, k := range sel {
-								if p.cases[k].outcome == 0 {
+						// passing cases are identified only by their number: attribute them to the selected passing cases
+						// first and any surplus to unselected passing cases (direction and count of a mismatch are exact,
+						// the identity of a mismatching passing case is not)
+						left := got[0]
+						inSel := map[int]bool{}
+						for _, k := range sel {
+							inSel[k] = true
+						}
+						for pass := 0; pass < 2 && left > 0; pass++ {
+							for k := range p.cases {
+								if p.cases[k].outcome == 0 && inSel[k] == (pass == 0) && left > 0 {
 									ran = append(ran, k)
+									left--
 								}
 							}
-						} else {
-							identified = false
 						}
-						if !identified {
-							r.Violation("cli: number of passed cases differs: filters="+filterSig(p, fs),
-								fmt.Sprintf("elk test %s: the statement selects cases %s (%d passing) but the summary reports %d passed\n%s\n%s", argsOf(fs), intsStr(sel), want[0], got[0], out, numbered(p.src)), p.src)
-							continue
+						for ; left > 0; left-- {
+							ran = append(ran, sel0(p)) // more passes than passing cases: some case ran twice
 						}
 						sort.Ints(ran)
-						judge(r, p, fs, "cli", ran, exit == 1, "\n"+strings.TrimSpace(out))
+						judge(r, p, fs, "cli", ran, exit == 1, true, "\n"+strings.TrimSpace(out))
 						if nums[1] != len(ran) {
 							r.Count("cli_summary_total_differs", 1)
 						}
@@ -814,11 +876,13 @@ func main() {
 	engine.Main(&engine.Spec{
 		Prop:  "C34",
 		Level: "exploration",
-		Rule: "every ordered suite tree with describe nesting ≤ 2 and ≤ 3 cases (thorough: ≤ 4; quick adds three outcome assignments for each 4-case tree) × every assignment of pass/fail(assertion)/error(throw) to the cases × " +
+		Rule: "every ordered suite tree with describe nesting ≤ 2 and ≤ 4 cases (3+14+70+353 trees) × assignments of pass/fail(assertion)/error(throw) to the cases " +
+			"(quick: all 3^n for n ≤ 2, 3 per tree for n = 3, 1 per tree for every fourth tree of n = 4; thorough: all for n ≤ 3, 9 per tree for n = 4) × " +
 			"every filter set of size ≤ 2 from {--grep alpha, --grep 'grp.*(beta|four)$', --path file, --path glob, --path other file, --path file:L for every line L of the file and one past its end}, " +
-			"registered and run in-process exactly as cmd/elk does (compiled once per tree, re-registered per filter set); plus the real `elk test` CLI on every tree with ≤ 2 cases (thorough: ≤ 3) × outcomes × {no filter, each single filter, --grep + each path:line}; " +
-			"oracle: independent selector (regex over the names of the enclosing suites and the case; file pattern and line inside the case or on the first line of an enclosing describe), executed multiset == selected set, exit failure ⇔ an executed case failed/errored; " +
-			"non-trivial = a filter set that selects a proper subset of the cases",
+			"registered and run in-process exactly as cmd/elk does (compiled once per tree and assignment, re-registered and run per filter set); plus the real `elk test` CLI on every tree with ≤ 2 cases (thorough: ≤ 3) × " +
+			"a subset of assignments × {no filter, each single filter, --grep + path:line} (reduced filter lists for the larger trees: a CLI run costs ~1 s CPU); " +
+			"oracle: independent selector (regex over the names of the enclosing suites and the case; file pattern and line inside the case or on the first line of an enclosing describe), executed multiset == selected set, " +
+			"exit failure ⇔ an executed case failed/errored; non-trivial = a non-empty filter set that selects a proper subset of the cases",
 		Assume: []string{
 			"path:LINE selects the cases whose source span contains the line and every case of a describe whose first line is LINE (the runner's own single-filter behaviour agrees with this reading)",
 			"a case's execution is observed through a marker its body prints (captured in the case report); the CLI identifies passing cases only by count",
@@ -827,14 +891,15 @@ func main() {
 		Setup: func(c *engine.Ctx) {
 			elkrun.Init()
 			// two fresh VM threads per evaluation, as cmd/elk does: keep them cheap (the generated programs nest ≤ 6 calls)
-			vm.INIT_VALUE_STACK_SIZE = 2048
-			vm.CALL_STACK_SIZE = 128
+			runtime.GOMAXPROCS(2) // 16 workers share the machine; the work of a worker is sequential
+			vm.INIT_VALUE_STACK_SIZE = 512
+			vm.CALL_STACK_SIZE = 64
 			if os.Getenv("C34_ONLY") != "inproc" {
 				prepareCLI()
 			}
 		},
 		Run:         run,
-		CaseTimeout: 180 * time.Second,
+		CaseTimeout: 600 * time.Second,
 		Finish: func(a *engine.Agg) {
 			os.RemoveAll(filepath.Join(engine.Root, ".work", "c34", fmt.Sprintf("run-%d", os.Getpid())))
 		},
